@@ -86,6 +86,23 @@ func main() {
 			}
 		}
 		s.Gen(NewRng(*seed^hashName(s.Name)), *tier, *n, emit)
+	case "dump":
+		// development aid: yvharness dump <stream> file.yang ... : compile the files and print the schema dump
+		var texts []string
+		for _, f := range fs.Args() {
+			b, err := os.ReadFile(f)
+			if err != nil {
+				fmt.Fprintln(os.Stderr, err)
+				os.Exit(2)
+			}
+			texts = append(texts, string(b))
+		}
+		ms, err := compileWith(nil, nil, texts...)
+		if err != nil {
+			fmt.Println("error:", err)
+			return
+		}
+		fmt.Print(dumpModelSet(ms).String())
 	case "run":
 		sc := bufio.NewScanner(os.Stdin)
 		sc.Buffer(make([]byte, 1<<20), 1<<26)
